@@ -46,7 +46,7 @@ func tlsRestartJudge(env vh.Env, run *vh.Run) {
 			sizes = append(sizes, n)
 		}
 		sizes = append(sizes, 16, 700, 701)
-		o := tlsrestart.Sweep(sizes)
+		o := tlsrestart.Sweep(sizes, false)
 		switch {
 		case o.Skipped != "":
 			run.Count("tls_restart_part", "size sweep skipped: "+o.Skipped)
@@ -68,7 +68,7 @@ func tlsRestartJudge(env vh.Env, run *vh.Run) {
 		switch {
 		case o.Skipped != "":
 			run.Count("tls_restart_part", "skipped: "+o.Skipped)
-		case !o.TailArrived:
+		case o.NeverDelivered || !o.TailArrived:
 			run.Count("tls_restart_part", sc.Kind+": packets lost")
 			run.Violate("restarted-member-misses-log-entries-over-tls",
 				fmt.Sprintf("%s: of %d gossip packets (notification-log entries) sent to a member after it came back on the same address only %d arrived, none of the later ones reliably (last send error: %s): the restarted, later-positioned instance never learns of the notification and sends it again", sc.Kind, o.AfterSent, o.AfterArrived, o.LastErr),
